@@ -271,7 +271,7 @@ def tokEvents (t : String) : Option (List ReaderClose.Event) :=
   | ["gj", m] => do some [.join (← parseMember m)]
   | ["gJ", m] => do match (← parseMember m) with | some n => some [.joinOk n] | none => none
   | ["gE"] => some [.joinErr, .coordErr]
-  | ["gF"] => some [.coordErr]
+  | ["gF"] => some [.lookupFail]
   | ["gs"] => some [.sync]
   | ["go"] => some [.offsetFetch]
   | ["gh", m] => do match (← parseMember m) with | some n => some [.heartbeat n] | none => none
@@ -279,8 +279,8 @@ def tokEvents (t : String) : Option (List ReaderClose.Event) :=
   | ["gl", m] => do match (← parseMember m) with | some n => some [.leave n] | none => none
   | ["co", _] => some [.coordOpen]
   | ["cc", _] => some [.coordClose]
-  | ["bo", _] => some [.dial]
-  | ["bc", _] => some [.connClose]
+  | ["bo", _] => some [.dial, .coordOpen]      -- a real connection: a fetcher's or the group loop's
+  | ["bc", _] => some [.connClose, .coordClose]
   | ["fq"] => some [.fetchReq]
   | ["lk", _] => some []
   | ["oc", _] => some []
